@@ -1079,6 +1079,36 @@ pub fn run_readers(rng: &mut Rng, count: usize, thorough: bool, shard: &str, out
             };
             emit(out, &c, &mut skipped);
         }
+        // a few LARGE files (size-dependent slips: buffer boundaries of the line reader, index width, many lines)
+        let mut big: Vec<(&'static str, String, &'static str, Vec<String>)> = Vec::new();
+        {
+            let n = 1800 + rng.below(400);
+            let mut t = format!("p af {}\n", n);
+            for i in 0..(2 * n) { t.push_str(&format!("{} {}\n", 1 + (i * 7) % n, 1 + (i * 13 + 5) % n)); }
+            big.push(("iccma", t, "ok", vec!["1".to_string(), n.to_string(), (n + 1).to_string()]));
+            // a comment line and a padded attack line longer than 8 KiB, CRLF ends
+            let mut t = String::from("p af 3\r\n");
+            t.push_str(&format!("# {}\r\n", "x".repeat(9000 + rng.below(500))));
+            t.push_str(&format!("1 2{}\r\n", " ".repeat(8300)));
+            t.push_str(&format!("{}2 3\r\n", "\t".repeat(8200)));
+            big.push(("iccma", t, "ok", vec!["3".to_string()]));
+            // an index with many digits (leading zeros) and one beyond the integer range
+            big.push(("iccma", format!("p af 2\n{}1 2\n", "0".repeat(300)), "ok", vec!["2".to_string()]));
+            big.push(("iccma", format!("p af 2\n1 {}\n", "9".repeat(40)), "err", vec!["1".to_string()]));
+            let m = 900 + rng.below(300);
+            let mut t = String::new();
+            for i in 0..m { t.push_str(&format!("arg(a{}).\n", i)); }
+            for i in 0..(2 * m) { t.push_str(&format!("att(a{},a{}).\n", (i * 5) % m, (i * 11 + 3) % m)); }
+            big.push(("apx", t, "ok", vec!["a0".to_string(), format!("a{}", m - 1), format!("a{}", m)]));
+            let mut t = String::from("arg(a).\n");
+            t.push_str(&format!("arg({}b{}).\n", " ".repeat(8200), " ".repeat(100)));
+            t.push_str(&format!("att(a,{}b).\n", " ".repeat(8300)));
+            big.push(("apx", t, "ok", vec!["b".to_string()]));
+        }
+        for (fmt, text, expect, args) in big {
+            let c = Case { stream: "hand", fmt, bytes: text.into_bytes(), inst: None, feats: vec!["big".to_string()], class: Some("big".to_string()), expect, args };
+            emit(out, &c, &mut skipped);
+        }
     }
     for i in 0..count {
         match i % 20 {
@@ -1160,13 +1190,33 @@ fn writer_fw_str(rng: &mut Rng, thorough: bool, out: &mut Out) {
 }
 
 fn writer_fw_usize(rng: &mut Rng, out: &mut Out) {
-    let univ = rng.range(1, 6);
-    let (init, ops) = gen_history(rng, univ, 20);
+    // rarely a LARGE framework: medium (hundreds of arguments, a long history: output above 8 KiB, sparse ids; still
+    // compared with the model) or huge (thousands of arguments: output above 64 KiB; the model side is too slow for
+    // it and skips the case - `IN big 1` - so that only the exact-bytes and read-back oracles judge it)
+    let size_class = rng.below(120);
+    let huge = size_class == 0;
+    let (init, ops) = if huge {
+        let n = rng.range(5000, 8000);
+        let init: Vec<usize> = (1..=n).collect();
+        let mut ops: Vec<Op> = Vec::new();
+        for i in 0..n { ops.push(Op::NewAtt(1 + i, 1 + (i * 7 + 3) % n)); }
+        for i in 0..40 { ops.push(Op::RemArg(1 + (i * 131) % n)); }
+        for i in 0..40 { ops.push(Op::NewArg(n + 1 + i)); ops.push(Op::NewAtt(n + 1 + i, 1 + (i * 17 + 2) % n)); }
+        (init, ops)
+    } else if size_class == 1 {
+        let u = rng.range(120, 250);
+        let st = rng.range(700, 1300);
+        gen_history(rng, u, st)
+    } else {
+        let u = rng.range(1, 6);
+        gen_history(rng, u, 20)
+    };
     // spread the labels so that the decimal writer sees several digit counts
-    let scale = [1usize, 7, 100, 12345][rng.below(4)];
+    let scale = if size_class <= 1 { 1 } else { [1usize, 7, 100, 12345][rng.below(4)] };
     let m = |i: &usize| if scale == 1 { *i } else { *i * scale - 1 };
     let init_m: Vec<usize> = init.iter().map(m).collect();
     out.case("writers/fw/usize");
+    if huge { out.inp("big 1"); }
     out.inp(&format!("init {}", join(init_m.iter(), " ")));
     let mut af = AAFramework::new_with_argument_set(ArgumentSet::new_with_labels(&init_m));
     for op in &ops {
